@@ -127,6 +127,12 @@ static std::string body() {
                 }
             }
             else if (op == "W") { f->write(new Counted(g_made++)); written++; obs += "w"; }
+            else if (op == "N") {
+                /* write(nullptr): not an object, outside the property's alphabet. Whatever the library does with it (ignore it,
+                 * throw), the guarantees for the real objects of the session must survive it. */
+                try { f->write(nullptr); } catch (const std::exception &) {}
+                obs += "0";
+            }
             else if (op == "C") { f->close(); if (st == OPEN_IN) st = CLOSED_IN; else if (st == OPEN_OUT) st = CLOSED_OUT; obs += "c"; }
             else if (op == "D") { f.reset(); obs += "d"; break; }
             if (!f) break;
